@@ -943,3 +943,9 @@ multi('C17', 'pwm-samples-in-private-list', 'mutant', [
 mutant('C18', 'export-splitext', EXP, "    if not file_path.endswith('.csv'):\n        file_path += '.csv'\n", "    file_path = os.path.splitext(file_path)[0] + '.csv'\n", 'C18.export')
 benign('C18', 'export-suffix-conditional-expression', EXP, "    if not file_path.endswith('.csv'):\n        file_path += '.csv'\n", "    file_path = file_path if file_path.endswith('.csv') else file_path + '.csv'\n")
 benign('C15', 'rule-keeps-motor-reference', CP, "        self.__powertrain = powertrain\n", "        self.__powertrain = powertrain\n        self.__elements = powertrain.elements\n")
+
+mutant('C05', 'angle-ctor-forgets-private-value', UN, "        self.__value = value\n        self.__unit = unit\n", "        self.__unit = unit\n", 'C05.ctor', nth=1)
+mutant('C06', 'angle-ctor-forgets-private-value', UN, "        self.__value = value\n        self.__unit = unit\n", "        self.__unit = unit\n", 'C06.conv.ctor', nth=1)
+mutant('C05', 'to-membership-inverted', UN, "        if target_unit not in self.__UNITS.keys():", "        if target_unit in self.__UNITS.keys():", 'C05.to', nth=0)
+mutant('C05', 'to-inplace-by-default', UN, "inplace: bool = False", "inplace: bool = True", 'C05.to', nth=0)
+mutant('C06', 'to-inplace-by-default', UN, "inplace: bool = False", "inplace: bool = True", 'C06.conv.to', nth=0)
